@@ -40,13 +40,13 @@ ASSUMPTIONS = ['ntv2_synth writer/addressing model (validated per file: bytes at
 REQUIRED_COUNTERS = ['metadata_files', 'metadata_subgrids', 'io_trace_judged', 'bilinear_blend_judged',
                      'bilinear_node_judged', 'linear_field_judged:bilinear', 'linear_field_judged:bicubic',
                      'bicubic_interior_judged', 'bicubic_node_judged', 'bicubic_second_ring_judged', 'bicubic_ring_seen',
+                     'bicubic_ring_value_ok',
                      'outside_none_judged', 'outside_2d_raised', 'probe_inside_judged', 'probe_outside_judged',
                      'overlap_finest_judged', 'overlap_touching_edge_judged', 'overlap_grandchild_judged',
                      'siblings_judged', 'edge_dont_care_seen', 'ntv2_2d_forward_judged', 'ntv2_2d_reverse_judged',
                      'ntv2_2d_sign_decisive', 'oracle_file_selfchecks']
 REQUIRED_MONITORS = ['interpolate_ntv2']
 
-KNOWN_RING = 'bicubic-stencil-leaves-subgrid'
 
 FILES = {'quick': 4, 'thorough': 47}         # per shard: 16 x 4 = 64 files, 32 x 47 = 1504 files
 QUERIES = {'quick': 400, 'thorough': 1000}   # positions per file (each: bilinear + bicubic + one ntv2_2d call)
@@ -660,8 +660,9 @@ class Session:
         return res
 
     def _ring(self, loc, method, nodes=()):
-        """Known-finding classifier: the method is bicubic AND the 4x4 stencil of the query's true cell is not contained
-        in the selected sub-grid.  Selected = the sub-grid that has to serve the query; where inclusion is a don't-care
+        """Outermost-ring classifier (was the known-finding classifier until the repair /repo 7c5d0cf; now only names
+        the class of a query in counters, ratios and witnesses): the method is bicubic AND the 4x4 stencil of the query's
+        true cell is not contained in the selected sub-grid.  Selected = the sub-grid that has to serve the query; where inclusion is a don't-care
         (several acceptable sub-grids) the one in whose node block the trace shows most of the node reads (a stencil that
         leaves the block reads part of its nodes from the neighbouring block); when no node read exists (the call failed
         before its first read) any of the acceptable sub-grids.  With a decisive query there is exactly one candidate."""
@@ -695,11 +696,11 @@ class Session:
             d = dict(detail0)
             d.update(detail)
             if ring:
-                d['clause'] = key
+                # outermost ring of cells: the 4x4 stencil is completed by extrapolation from the sub-grid's own nodes
+                # (a known finding until /repo 7c5d0cf; judged like every other query since)
+                d['outermost_ring'] = True
                 ctx.count('bicubic_ring_failed:' + key.split(':')[0])
-                ctx.violation(KNOWN_RING, case, d)
-            else:
-                ctx.violation(via + key, case, d)
+            ctx.violation(via + key, case, d)
 
         if not loc['decisive']:
             ctx.count('edge_dont_care_seen')
@@ -760,7 +761,12 @@ class Session:
             want_sets = nx.expected_node_sets(sg, fi, fj, method)
             got_set = frozenset(n for (k, n) in nodes)
             full = all(m == 0xFFFF for m in nodes.values())
-            if not full or got_set not in want_sets:
+            ring_ok = False
+            if ring and full:
+                ring_ok = any(must <= got_set <= may for must, may in nx.ring_node_bounds(sg, fi, fj))
+                if ring_ok:
+                    ctx.count('io_trace_ring_nodes_inside_subgrid')
+            if not ring_ok and (not full or got_set not in want_sets):
                 trace_notes.append(('io-trace:nodes-not-around-query',
                                     {'subgrid': sg['name'], 'index': [float(fi), float(fj)], 'ncols': sg['ncols'],
                                      'nodes_read_row_col': sorted(divmod(n, sg['ncols']) for n in got_set)[:16],
@@ -811,7 +817,7 @@ class Session:
         if not ring:
             ctx.ratio(method if method == 'bilinear' else 'bicubic-interior', _cap(best['worst']), 1.0)
         else:
-            ctx.maxi('bicubic-ring err/tol (known finding)', _cap(best['worst']))
+            ctx.ratio('bicubic-outermost-ring', _cap(best['worst']), 1.0)
         seen = set()
         for key, d in best['fails']:
             if key in seen:
@@ -909,11 +915,7 @@ class Session:
                 # the inner interpolation raised: judged as an interpolation failure of that call
                 self._judge(case, q, method, loc, None, last[3], reads, 'ntv2_2d>')
                 return
-            key = 'ntv2_2d:exception'
-            if ring:
-                ctx.violation(KNOWN_RING, case, {'clause': key, 'exception': repr(exc)})
-            else:
-                ctx.violation(key, case, {'exception': repr(exc), 'status': loc['status']})
+            ctx.violation('ntv2_2d:exception', case, {'exception': repr(exc), 'status': loc['status'], 'outermost_ring': ring})
             return
         if acc == {None}:
             ctx.violation('inclusion:outside-ntv2_2d-did-not-raise', case, {'got': res, 'status': loc['status']})
@@ -972,16 +974,11 @@ class Session:
                 e = math.inf
             if best is None or e < best[0]:
                 best = (e, [w_lat, w_lon], [t_lat, t_lon], sg['name'])
-        if ring:
-            ctx.maxi('ntv2_2d bicubic-ring err/tol (known finding)', _cap(best[0]))
-            if best[0] > 1.0:
+        if not ctx.ratio('ntv2_2d-outermost-ring' if ring else 'ntv2_2d', _cap(best[0]), 1.0):
+            if ring:
                 ctx.count('bicubic_ring_failed:ntv2_2d')
-                ctx.violation(KNOWN_RING, case, {'clause': 'ntv2_2d:wrong-position', 'got': list(res), 'expected': best[1],
-                                                 'subgrid': best[3]})
-        else:
-            if not ctx.ratio('ntv2_2d', _cap(best[0]), 1.0):
-                ctx.violation('ntv2_2d:wrong-position', case, {'got': list(res), 'expected': best[1], 'tol_deg': best[2],
-                                                               'subgrid': best[3], 'forward': forward})
+            ctx.violation('ntv2_2d:wrong-position', case, {'got': list(res), 'expected': best[1], 'tol_deg': best[2],
+                                                           'subgrid': best[3], 'forward': forward, 'outermost_ring': ring})
         self.ctx.bucket('2d', model.get('layout'), method, 'fwd' if forward else 'rev', q.get('cls'),
                         'ring' if ring else 'reg')
 
